@@ -94,12 +94,13 @@ def run(ctx):
         # in front of the cut — i.e. from what trimming left — not from the last two bytes of the raw line (`foo\  ` ends
         # in two spaces yet keeps one; `bar\\ ` ends in backslash-space yet keeps none)
         TRIM = ("str::trim_right", "str::trim_end", "core::str::<impl str>::trim_right", "core::str::<impl str>::trim_end")
-        trims = [c for c in f.calls() if c.path.endswith(("::trim_right", "::trim_end"))]
+        trims = [c for c in f.calls() if c.path.endswith(("::trim_right", "::trim_end", "::trim_end_matches", "::trim_right_matches"))]
         if not trims:
             r.bad("trailing-space", "anchor-missing: add_line no longer trims trailing whitespace", fn=f)
         else:
             def on_trimmed(e):
-                return any(x.k == "call" and x[1].endswith(("::trim_right", "::trim_end")) for x in walk(e))
+                return any(x.k == "call" and x[1].endswith(("::trim_right", "::trim_end", "::trim_end_matches", "::trim_right_matches"))
+                           for x in walk(e))
 
             def is_bs(c):
                 return c is not None and (c.get("val") == 92 or "\\" in str(c.get("str", "")))
@@ -126,6 +127,38 @@ def run(ctx):
                       "(quoted space, then a plain one) loses both and is rejected as a dangling escape, `bar\\\\ ` (quoted backslash, "
                       "then a plain space) keeps the space; git ignores `foo ` and `bar\\` for them", fn=f, loc=trims[0].loc,
                       construct="trailing-space")
+        # what is trimmed is the space character only: git keeps a trailing tab (form feed, NBSP …) as part of the pattern
+        ws = [c for c in trims if c.path.endswith(("::trim_right", "::trim_end"))]
+        sp = [c for c in trims if c.path.endswith(("::trim_end_matches", "::trim_right_matches")) and
+              any(x.k == "const" and (x[1] == 32 or str(x[2]).strip() in ("' '", '" "')) for x in walk(eb.operand(c.args[1])))]
+        if trims and not ws and len(sp) == len(trims):
+            r.ok("trailing-space|spaces-only", "only ' ' is trimmed from the end of a line", fn=f)
+        elif trims:
+            r.bad("trailing-space|spaces-only", "add_line trims every kind of Unicode whitespace from the end of a line: `foo<TAB>` "
+                  "ignores `foo`, where git ignores the file named `foo<TAB>` and not `foo`", fn=f, loc=(ws or trims)[0].loc,
+                  construct="trailing-space")
+        # the escape in front of a trailing slash: `a\\/` (quoted backslash, then the directory slash) must keep both
+        # backslashes. Whether the last backslash quotes the slash is a matter of how many there are, so the decision
+        # after `is_only_dir = true` has to count them; a look at the last byte alone is the defect
+        od = [bb for bb, j, st in f.stmts() if st["k"] == "assign" and any(isinstance(q, dict) and q.get("f") == "is_only_dir" for q in st["place"]["p"])]
+        if not od:
+            r.bad("escaped-slash", "anchor-missing: add_line no longer records is_only_dir", fn=f)
+        else:
+            after = [sw_ for sw_ in cond_switches(f, lambda e: True, eb) if C.dominates(f, od[0], sw_[0]) and sw_[0] != od[0]]
+
+            def bs_const(e):
+                return any(x.k == "const" and ((x[1] == 92) or (x[2] and ("\\" in str(x[2]) or "92_u8" in str(x[2])))) for x in walk(e))
+            single = [sw_ for sw_ in after if bs_const(sw_[3]) and any(is_call(x, "[T]::last", "core::slice::<impl [T]>::last") for x in walk(sw_[3]))]
+            counted = [sw_ for sw_ in after if any(x.k == "bin" and x[1] == "Rem" for x in walk(sw_[3])) and
+                       any(x.k == "closure" for x in walk(sw_[3]))]
+            if single:
+                r.bad("escaped-slash", "add_line removes a backslash in front of the trailing slash whenever the last byte is one: "
+                      "for `a\\\\/` (a quoted backslash, then the slash) it leaves `a\\`, a dangling escape, and the directory "
+                      "`a\\` that git ignores is searched", fn=f, construct="escaped-slash")
+            elif counted:
+                r.ok("escaped-slash", "escape removed only for an odd number of trailing backslashes", fn=f)
+            else:
+                r.ok("escaped-slash", "no escape removal in front of the trailing slash", fn=f, nontrivial=False)
         # nothing left after the `!` / `/` prefixes and the trailing `/` were stripped ⇒ the line is skipped. Otherwise the
         # empty glob gets its `**/` prefix and matches (or, for `!`, re-includes) every path below the ignore file.
         empties = cond_switches(f, lambda e: is_call(e, "str::is_empty"), eb)
